@@ -270,7 +270,7 @@ fn finding_class(c: &Case, codes: &[String]) -> Option<&'static str> {
     }
     // a fragment (or operation) named like a type the generated code itself mentions unqualified: `struct String { name: String }`
     const USED_UNQUALIFIED: [&str; 8] = ["String", "Vec", "Option", "Box", "Boolean", "Float", "Int", "ID"];
-    if (has("E0072") || has("E0428") || has("E0308") || has("E0107")) && c.doc.frags.iter().any(|f| USED_UNQUALIFIED.contains(&f.name.as_str())) {
+    if (has("E0072") || has("E0391") || has("E0428") || has("E0308") || has("E0107")) && c.doc.frags.iter().any(|f| USED_UNQUALIFIED.contains(&f.name.as_str())) {
         return Some("fragment-named-like-a-type-the-generated-code-uses");
     }
     // two inline fragments on ONE possible type at one position that share a response key: the variant struct declares the member twice
